@@ -341,6 +341,12 @@ def r6_consumers_and_teardown(ctx):
     if g is not None:
         dr = [s for s in g.calls() if s.name == 'std::vec::Vec::drain']
         ok = bool(dr) and g.postdominates(dr[0].b, 0)
+        if not ok:
+            # equivalent: the buffer is moved out (mem::take) and every element handed to the runtime, on every path
+            for w in per_item_calls(P, g, 'des::runtime::Runtime::add_event'):
+                src = w.it
+                if src is not None and src[0] == 'call' and src[1] in ('std::mem::take', 'std::vec::Vec::drain') and w.exhaustive and g.postdominates(w.anchor, 0):
+                    ok = True
         ctx.check(ok, 'flush-unconditional', 'buf_process drains the global event buffer on every path — also for a module that has just been deactivated by a panic', g.where())
 
 
